@@ -17,6 +17,8 @@
 //
 // I/U: elements "e <16 hex digits>" (bit pattern); LSDInt MSDInt / LSDUint MSDUint.
 // S: elements "e x<hex bytes>"; LSDString w, MSDString, Quick3WayString, VQuick3WayString (hook).
+// Native (I/U/S): slices.Sort, compared with the specification-level sorted list (glue: the order the
+// theorems talk about is the language's native order).
 // A panic is reported as PANIC, a call that does not return within the deadline as HANG.
 package main
 
@@ -26,6 +28,7 @@ import (
 	"math"
 	"math/rand"
 	"os"
+	"slices"
 	"strconv"
 	"strings"
 	"time"
@@ -235,6 +238,8 @@ func (st *state) exec(w *tr.W, op string) {
 			res = guard(func() string { radixsort.LSDInt(a); return back() })
 		case "MSDInt":
 			res = guard(func() string { radixsort.MSDInt(a); return back() })
+		case "Native":
+			res = guard(func() string { slices.Sort(a); return back() })
 		default:
 			res = "?"
 		}
@@ -255,6 +260,8 @@ func (st *state) exec(w *tr.W, op string) {
 			res = guard(func() string { radixsort.LSDUint(a); return back() })
 		case "MSDUint":
 			res = guard(func() string { radixsort.MSDUint(a); return back() })
+		case "Native":
+			res = guard(func() string { slices.Sort(a); return back() })
 		default:
 			res = "?"
 		}
@@ -263,6 +270,8 @@ func (st *state) exec(w *tr.W, op string) {
 		switch f[0] {
 		case "MSDString":
 			res = guard(func() string { radixsort.MSDString(a); return showS(a) })
+		case "Native":
+			res = guard(func() string { slices.Sort(a); return showS(a) })
 		case "Quick3WayString":
 			res = guard(func() string { radixsort.Quick3WayString(a); return showS(a) })
 		case "VQuick3WayString":
@@ -351,9 +360,9 @@ func caseU(w *tr.W, head string, vals []uint64) {
 		ops = append(ops, fmt.Sprintf("e %016x", v))
 	}
 	if head == "I" {
-		ops = append(ops, "LSDInt", "MSDInt")
+		ops = append(ops, "LSDInt", "MSDInt", "Native")
 	} else {
-		ops = append(ops, "LSDUint", "MSDUint")
+		ops = append(ops, "LSDUint", "MSDUint", "Native")
 	}
 	runCase(w, head, ops)
 }
@@ -377,7 +386,7 @@ func caseS(w *tr.W, vals []string, lsdW int) {
 	for _, v := range vals {
 		ops = append(ops, "e "+hexS(v))
 	}
-	ops = append(ops, "MSDString", "VQuick3WayString", "Quick3WayString")
+	ops = append(ops, "MSDString", "VQuick3WayString", "Quick3WayString", "Native")
 	if lsdW >= 0 {
 		ops = append(ops, fmt.Sprintf("LSDString %d", lsdW))
 	}
